@@ -237,6 +237,7 @@ def run_one(prop, cfg, tier, regress_path, known, outdir):
     env = dict(os.environ)
     ms = prop.get("max_success", {}).get(tier, 300 if tier == "quick" else 3000)
     env["RC_PARAMS"] = "seed=%d max_success=%d max_size=100" % (SEED, ms)
+    env["VP_TIER"] = tier
     env["ASAN_OPTIONS"] = "detect_leaks=1:abort_on_error=0:exitcode=99:allocator_may_return_null=1"
     env["UBSAN_OPTIONS"] = "print_stacktrace=0:halt_on_error=0"
     try:
